@@ -20,5 +20,10 @@ def run(fb, rep, tier, cfg):
                         "Char values are represented as Int in the VM (Char comparisons map to the Int instructions)"]
     e11.r11a(fb, rep)
     e11.r11c(fb, rep)
+    e11.r11d(fb, rep)
     from . import c08
     c08.e13b(fb, rep)
+    # strict `let`: the always-on dead-code pass must keep every binding whose evaluation contains a call (shared with C04)
+    from . import c04
+    c04.r10a(fb, rep)
+    c04.r10b(fb, rep)
